@@ -722,6 +722,9 @@ class Exec:
                 return IntV(IntVal(1))
             if a == 'false':
                 return IntV(IntVal(-1))
+            q = f'{mv.cls}.{a}'
+            if q in self.reg and [n for n, _ in self.reg[q].params] == ['self']:
+                return self.call_contract(q, [mv], {}, p, e)        # a property of the manager under contract (e.g. var_levels)
             raise Unsupported(f'attr {a}@{e.lineno}')
         v = self.ev(e.value, p)
         if isinstance(v, ObjV) and e.attr in v.attrs:
